@@ -15,6 +15,15 @@ Oracles
   * independent: the cell with every tag replaced by <prefix><short name><suffix> resp. <prefix><long name><suffix>
     (names from the XML), delimiters without blanks; n/a and the empty cell stay what they are;
   * relational (every cell): HedString(cell, schema).get_as_short() / get_as_long().
+Sibling cells (sibling_cells): a table usually repeats one annotation on many rows, and people do not repeat it letter for letter.
+For a tag text with a value / extension, 6 writings that are equal up to letter case (name and suffix re-cased independently:
+`Label/Left-Hand`, `label/left-hand`, `Label/LEFT-HAND`, `LABEL/Left-Hand` ...), alone, next to a companion tag (`..., Red` / `...,RED`,
+with different blanks) and inside a group, so that SEVERAL cells of one column -- and, by the rotated second column, cells of two
+columns of one row -- differ only in the case of a value or extension.  Each table is converted in the order written (siblings
+adjacent), reversed (another sibling comes first) and shuffled (siblings apart).  Oracle as for every cell: each cell converts
+exactly as its own text converts alone, suffix verbatim (clause C03.table.cell_converts_as_string).  Besides the input
+objects, the same columns go through df_util.convert_to_form as a bare Series and as a bare DataFrame (kinds series / frame).
+
 Checked: the first conversion of a fresh table (to short, to long), then short(short), long(short), short(long(short)) resp.
 long(long), short(long), long(short(long)) on the same object, and after every step that all other columns still hold
 what they held.
@@ -34,7 +43,9 @@ CASES = ("asis", "lower", "upper", "swap")
 # cell shapes: nested lists of item slots
 SHAPES = [[0], [0, 1], [[0, 1]], [0, [1, [2]]], [[0], 1], [[[0], 1], 2], [[0, 1], [2]], [[0]], [0, 1, 2]]
 BLANKS = [("", "", ""), (" ", "", ""), (" ", " ", " "), ("  ", " ", "")]     # (after comma, after '(', before ')')
-KINDS = ("tabular-df", "tabular-tsv", "tabular-sidecar", "sheet-named", "sheet-numbered", "base-mapper")
+KINDS = ("tabular-df", "tabular-tsv", "tabular-sidecar", "sheet-named", "sheet-numbered", "base-mapper", "series", "frame")
+SIBLING_RECASE = (("asis", "asis"), ("lower", "lower"), ("asis", "upper"), ("upper", "asis"), ("swap", "swap"), ("asis", "lower"))
+SIBLING_VALUES = ["/Left-Hand", "/Val 7:xY"]
 ROWS_PER_TABLE = 40
 
 _cfg = {}
@@ -132,6 +143,89 @@ def build_cells(items, rng):
     return out
 
 
+def _recase_ok(text, how):
+    v = _case(text, how)
+    return v if len(v) == len(text) and v.casefold() == text.casefold() else None
+
+
+def sibling_items(long_name, ns, vocab_set, term_set, rng):
+    """-> [(written text, expected short, expected long)]: writings of ONE tag text with a value / extension that are equal up to
+    letter case; the name and the suffix are re-cased independently (the prefix is written as declared)"""
+    terms = long_name.split("/")
+    spellings = ["/".join(terms[j:]) for j in range(len(terms))]
+    if long_name + "/#" in vocab_set:
+        R = SIBLING_VALUES[rng.randrange(len(SIBLING_VALUES))]
+    else:
+        ext = list(EXT_TERMS)
+        while any(x.casefold() in term_set for x in ext):
+            ext = [x + "q" for x in ext]
+        R = ["/" + ext[0], "/%s/%s" % (ext[0], ext[1])][rng.randrange(2)]
+    spelling = spellings[[len(spellings) - 1, 0, len(spellings) // 2][rng.randrange(3)]]
+    out, seen = [], set()
+    for name_how, suffix_how in SIBLING_RECASE:
+        name, suffix = _recase_ok(spelling, name_how), _recase_ok(R, suffix_how)
+        if name is None or suffix is None or ns + name + suffix in seen:
+            continue
+        seen.add(ns + name + suffix)
+        out.append((ns + name + suffix, ns + terms[-1] + suffix, ns + long_name + suffix))
+    return out
+
+
+def sibling_cells(groups, companions):
+    """groups: [sibling_items(...)], companions: [(short name without prefix, short, long)] plain tags.  -> cells (raw, short, long): every writing
+    alone, with a (re-cased) companion in different blank patterns, and inside a group with the companion"""
+    cells = []
+    for gi, group in enumerate(groups):
+        comp = companions[gi % len(companions)]
+        ns = comp[1][:len(comp[1]) - len(comp[0])]             # the prefix is written as declared, only the name is re-cased
+        comps = [(ns + comp[0],) + comp[1:]]
+        comps += [(ns + v, comp[1], comp[2]) for v in (_recase_ok(comp[0], "upper"), _recase_ok(comp[0], "lower")) if v]
+        for item in group:
+            cells.append(item)
+        for k, item in enumerate(group):
+            c = comps[k % len(comps)]
+            pair = [item, c] if k % 2 == 0 or len(group) < 2 else [c, item]
+            cells.append(tuple(_render([0, 1], [x[i] for x in pair], BLANKS[k % len(BLANKS)] if i == 0 else ("", "", ""))
+                               for i in range(3)))
+        for k, item in enumerate(group[:3]):
+            c = comps[(k + 1) % len(comps)]
+            cells.append(tuple(_render([[0, 1]], [x[i] for x in (item, c)], BLANKS[(k + gi) % len(BLANKS)] if i == 0 else ("", "", ""))
+                               for i in range(3)))
+    return cells
+
+
+class _Bare:
+    """a bare pandas object converted with df_util.convert_to_form -- same interface as the input objects"""
+
+    def __init__(self, kind, cells, rot):
+        import pandas as pd
+        self.kind = kind
+        if kind == "series":
+            self.series = pd.Series(list(cells), name="HED")
+            self.keep = pd.Series(list(rot), name="note")
+        else:
+            self.frame = pd.DataFrame({"note": list(cells), "HED": list(cells), "B": list(rot)})
+
+    @property
+    def dataframe(self):
+        import pandas as pd
+        if self.kind == "series":
+            return pd.DataFrame({"HED": self.series, "note": self.keep})
+        return self.frame
+
+    def _convert(self, S, form):
+        from hed.models.df_util import convert_to_form
+        if self.kind == "series":
+            return convert_to_form(self.series, S, form)
+        return convert_to_form(self.frame, S, form, columns=["HED", "B"])
+
+    def convert_to_short(self, S):
+        return self._convert(S, "short_tag")
+
+    def convert_to_long(self, S):
+        return self._convert(S, "long_tag")
+
+
 def make_table(kind, cells, first_tag):
     """-> (input object, [HED column names], [other column names])"""
     import pandas as pd
@@ -166,6 +260,10 @@ def make_table(kind, cells, first_tag):
         df = pd.DataFrame({"note": list(rot), "HED": list(cells)})
         return BaseInput(df, mapper=ColumnMapper(tag_columns=["HED"], warn_on_missing_column=False), name="c03-table"), ["HED"], \
             ["note"]
+    if kind == "series":
+        return _Bare(kind, cells, rot), ["HED"], ["note"]
+    if kind == "frame":
+        return _Bare(kind, cells, rot), ["HED", "B"], ["note"]
     raise ValueError(kind)
 
 
@@ -180,8 +278,10 @@ def string_forms(S, text, memo):
     return memo[text]
 
 
-def check_table(S, kind, cells, expected, first_tag, rec, memo):
-    """cells: raw texts; expected: {raw: (short or None, long or None)} from the XML.  -> number of (cell, first conversion) cases"""
+def check_table(S, kind, cells, expected, first_tag, rec, memo, siblings=False):
+    """cells: raw texts; expected: {raw: (short or None, long or None)} from the XML.  -> number of (cell, first conversion) cases.
+    siblings: the table's cells are case variants of each other -- a failure record then carries the whole table (the other cells
+    are part of the failing input)"""
     n_cases = 0
     for first in ("short", "long"):
         try:
@@ -217,7 +317,8 @@ def check_table(S, kind, cells, expected, first_tag, rec, memo):
                         n_cases += 1
                     if any(got[row] != x for x in want):
                         rec(CL_CELL if si == 0 else CL_ROUND,
-                            {"kind": kind, "cell": src, "column": col, "steps": list(done), "first_tag": first_tag},
+                            dict({"kind": kind, "cell": src, "column": col, "steps": list(done), "first_tag": first_tag},
+                                 **({"siblings": True, "cells": list(cells), "row": row} if siblings else {})),
                             got[row], want[-1] if len(set(want)) == 1 else {"HedString": want[0], "from the schema XML": want[-1]})
             for col, content in others.items():
                 got = list(obj.dataframe[col])
@@ -251,14 +352,15 @@ def plan(w, configs, quick_labels):
                 pick.update(rng.sample(rest, max(0, min(len(rest), budget - len(pick)))))
                 names = [n for n in names if n in pick]
             per_member.append(names)
-        units.append((label, spec, files, per_member, "%s/table/%s" % (w.seed, label)))
+        units.append((label, spec, files, per_member, "%s/table/%s" % (w.seed, label), w.quick))
     return units
 
 
 def work(unit):
     import warnings
     warnings.simplefilter("ignore")
-    label, spec, files, per_member, seed = unit
+    label, spec, files, per_member, seed = unit[:5]
+    quick = unit[5] if len(unit) > 5 else True
     fails = {}
     out = {"fails": fails, "cases": 0, "cells": 0, "tables": 0, "keys": []}
 
@@ -296,6 +398,40 @@ def work(unit):
                 out["cases"] += n
                 out["tables"] += 1
                 out["keys"] += ["table|%s|%s|%d|%d" % (label, kind, start, i) for i in range(n)]
+        # ---- sibling cells: several cells of a column equal up to letter case / blanks ------------------------------
+        groups, companions = [], []
+        for mi, names in enumerate(per_member):
+            vocab = _cfg["vocabulary"](files[mi]) if spec[0] == "bundled" else _cfg["gen"](spec[1], spec[2])[1]
+            vocab_set = set(vocab)
+            term_set = {t.casefold() for n in vocab for t in n.split("/")}
+            ns = members[mi]._namespace
+            valued = [n for n in names if n + "/#" in vocab_set]
+            plain = [n for n in names if n + "/#" not in vocab_set]
+            k = 5 if quick else 20
+            chosen = rng.sample(valued, min(k, len(valued))) + rng.sample(plain, min(k, len(plain)))
+            for long_name in chosen:
+                g = sibling_items(long_name, ns, vocab_set, term_set, rng)
+                if len(g) >= 2:
+                    groups.append(g)
+            for long_name in rng.sample(plain, min(4, len(plain))):
+                companions.append((long_name.split("/")[-1], ns + long_name.split("/")[-1], ns + long_name))
+        out["sibling_cells"] = out["sibling_tables"] = 0
+        if groups and companions:
+            sib = sibling_cells(groups, companions)
+            for raw, s_, l_ in sib:
+                expected.setdefault(raw, (s_, l_))
+            sib_texts = [c[0] for c in sib]
+            out["sibling_cells"] = len(sib_texts)
+            for start in range(0, len(sib_texts), ROWS_PER_TABLE):
+                chunk = sib_texts[start:start + ROWS_PER_TABLE]
+                shuffled = list(chunk)
+                rng.shuffle(shuffled)
+                for oi, ordered in enumerate((chunk, list(reversed(chunk)), shuffled)):
+                    for kind in KINDS:
+                        n = check_table(S, kind, ordered, expected, first_tag, rec, memo, siblings=True)
+                        out["cases"] += n
+                        out["sibling_tables"] += 1
+                        out["keys"] += ["table-siblings|%s|%s|%d|%d|%d" % (label, kind, start, oi, i) for i in range(n)]
     except Exception:  # noqa
         import traceback
         rec("C03.workload.unit_completed", {"part": "table"}, traceback.format_exc()[-600:], "no exception")
@@ -311,9 +447,11 @@ def replay_table(w, case):
     S, _ = _cfg["load"](tuple(spec) if isinstance(spec, list) else spec)
     cells = [inp["cell"]] if inp.get("cell") is not None else list(inp.get("cells", []))
     cells = [c for c in cells if c is not None] + [NA]
+    if inp.get("siblings"):           # the other cells of the table are part of the failing input
+        cells = list(inp["cells"])
 
     def rec(clause, i, observed, expected):
         if clause == case["clause"]:
             w.fail(clause, dict(i, schema=inp["schema"], spec=spec, table=True), observed, expected)
     w.case(key=json.dumps(inp, sort_keys=True))
-    check_table(S, inp["kind"], cells, {}, inp.get("first_tag", "Xyzzy"), rec, {})
+    check_table(S, inp["kind"], cells, {}, inp.get("first_tag", "Xyzzy"), rec, {}, siblings=bool(inp.get("siblings")))
